@@ -8,6 +8,18 @@ PY = "/venv/bin/python"
 
 # property -> (claimed?, technique, level text, level note, design ref)
 CHECKS = {
+    "C02": dict(
+        technique="Lean 4 proof: every nodes combinator preserves `Lawful` (bisimulation congruence per operator; induction over the pipeline), Loader.resume_exact on top + differential correspondence of real pipelines against the model",
+        text="TDV.Node.*_lawful / built_lawful: for every pipeline built from the operator set, state_dict is transparent and loading the state taken at any reachable point into any (also freshly built) pipeline is bisimilar to continuing - hence equal items for the rest of the epoch, later epochs and further checkpoint/resume chains, for every source length, batch size, snapshot_frequency (0 included) and item value (None included). Unbatcher / Prefetcher / ParallelMapper (sequential abstraction justified by the PF/PM protocol theorems) are proved for pipelines that never raise; the unrestricted statements are refuted in Lean on two pipelines whose checkpoint is taken after an exception (outside the property: it quantifies over checkpoints after k items). TDV.Loader.resume_exact lifts it through Loader/LoaderIterator. Tie: random pipelines x op lists through the real operators and the model driver on every run; oracle: every k of every epoch, chains, on the real operators (threads under the virtual scheduler).",
+        note="Trusted: Lean kernel + standard axioms; user iterables/samplers/map functions are parameters with stated laws (StLaws); the sequential abstraction `buffered` of the threaded operators is tied to the thread protocol by the PF/PM models (C06); correspondence is testing.",
+        ref="DESIGN.md §7 C02",
+    ),
+    "C04": dict(
+        technique="Lean 4 proof: denotational lemmas per operator (induction over the source epoch) and delivered-prefix/completeness invariants of the thread protocols + differential correspondence and a reference evaluator on the real pipelines",
+        text="TDV.Node.*_denote: mapper = map f, batcher = Ref.chunk (both drop_last), unbatcher = flatten, filter = List.filter, buffered = id, prebatch = id, wrappers = wrapped order, epoch_complete, for all source lists and parameters. Thread interleavings: PF/PM delivered_prefix / complete / unordered_perm over every action sequence of the protocol models, tied to the real threads by trace validation under the virtual scheduler.",
+        note="Trusted: Lean kernel + standard axioms; map/filter functions are parameters; the virtual scheduler is the lens on the real threads; correspondence is testing.",
+        ref="DESIGN.md §7 C04",
+    ),
     "C07": dict(
         technique="Lean 4 proof (TDV.Incr.lossless, unflatten_flatten by induction over values and histories) + differential correspondence of the real _IncrementalState pair against the model",
         text="Theorems over all well-formed state values and all finite report histories: flatten/unflatten round trip, one-step and whole-history losslessness of delta transfer (tombstones, leaf<->dict changes). The model is tied to incremental_state.py on every run by a differential run over generated histories (incl. in-place mutation and delayed serialisation), and the property is evaluated directly on the real classes and on StatefulDataLoader checkpoints.",
